@@ -1,5 +1,8 @@
 import BreezyVerif.Model.C14
 import BreezyVerif.Lemmas.C14
+import BreezyVerif.Lemmas.C14Git
+import BreezyVerif.Lemmas.C14DeltaSound
+import BreezyVerif.Lemmas.C14Fuel
 /-!
 C14 — transform previews match their applied result; conflict resolution ends
 clean or with MalformedTransform; nothing is applied otherwise.
@@ -8,6 +11,23 @@ All statements are about the executable model `Model/C14.lean`, for every base
 tree, every transform state (any maps over any trans-ids) and every fuel.
 -/
 namespace BreezyVerif.C14
+
+/-! ### code variants -/
+
+/-- the code variant of the pinned source (before any `fix:` commit) for bzr trees -/
+def pinnedBzr : Flags := { git := false, dataByTreePath := false, execByTreePath := false, childrenGet := false, cancelGuarded := false, loopGuarded := false }
+def pinnedGit : Flags := { git := true, dataByTreePath := true, execByTreePath := false, childrenGet := false, cancelGuarded := false, loopGuarded := false }
+
+/-- the code variant of /repo now (what T1 extracts; `source_flags_fixed` in Props/C14T1 proves the
+extracted records have `previewFixed` and `resolversFixed`) -/
+def currentBzr : Flags := { git := false, dataByTreePath := true, execByTreePath := true, childrenGet := true, cancelGuarded := true, loopGuarded := true }
+def currentGit : Flags := { currentBzr with git := true }
+
+/-- the code variant with the four repairs proposed for the defects reported by this check -/
+def repairedBzr : Flags := { currentBzr with upSkipsIdless := true, npReleasesId := true, unversionTolerant := true, deltaDropsOldId := true }
+
+/-- non-vacuity of the hypotheses `previewFixed` / `resolversFixed` -/
+example : currentBzr.previewFixed = true ∧ currentGit.previewFixed = true ∧ currentBzr.resolversFixed = true := by decide
 
 /-! ### the resolution loop -/
 
@@ -55,22 +75,230 @@ theorem resolve_zero_malformed (fl : Flags) (fuel : Nat) (tt : TT) (last cs : Li
         simp [hnil] at hc
       · cases h
 
-example : TT.resolve ⟨false, false, false, false, false, false⟩ 0 { base := [], next := 0 } [.parentLoop 1] = .malformed [.parentLoop 1] := rfl
+example : TT.resolve pinnedBzr 0 { base := [], next := 0 } [.parentLoop 1] = .malformed [.parentLoop 1] := rfl
 
-/-- all or nothing: `resolve_conflicts(tt); tt.apply()` either leaves the disk
-exactly as it was (an exception was raised: MalformedTransform or a resolver's
-own), or it applies a transform `tt'` that has no raw conflicts, completely. -/
-theorem run_all_or_nothing (fl : Flags) (tt : TT) :
-    tt.diskAfter fl = tt.baseDisk ∨
-    ∃ tt', tt.resolveConflicts fl = .clean tt' ∧ tt'.findRawConflicts fl = [] ∧ tt.diskAfter fl = tt'.applyDisk := by
-  unfold TT.diskAfter TT.resolveAndApply
-  cases hr : tt.resolveConflicts fl with
-  | clean tt' =>
-    have hc := resolve_clean_or_error fl passCount tt [] tt' hr
-    right
-    exact ⟨tt', rfl, hc, by simp [hc]⟩
-  | malformed cs => left; rfl
-  | crashed e => left; rfl
+/-- **all or nothing, except for a refused delta**: whatever `resolve_conflicts(tt); tt.apply()`
+raises — MalformedTransform, a resolver's own exception, NoFinalPath from the delta generation, a
+failed rename (rolled back) — the disk it leaves behind is exactly the disk before, *unless* the
+exception is the inventory layer refusing the delta: that happens after the file phases and
+outside their rollback.  (`inconsistent_delta_partial_witness` shows that case is real.) -/
+theorem run_raise_keeps_disk_partial (fl : Flags) (tt : TT) (e : Err) (d : Disk)
+    (h : tt.resolveAndApply fl = .raised e d) (he : e ≠ .inconsistentDelta) : d = tt.baseDisk := by
+  unfold TT.resolveAndApply at h
+  split at h
+  · rename_i tt' _
+    unfold TT.apply at h
+    split at h
+    · cases h; rfl
+    · split at h
+      · cases h; rfl
+      · split at h
+        · cases h; rfl
+        · split at h
+          · cases h; exact absurd rfl he
+          · cases h
+  · cases h; rfl
+  · cases h; rfl
+
+/-- **all or nothing**: `resolve_conflicts(tt); tt.apply()` either raises, or it has applied —
+completely: the disk is `applyDisk` of — a transform `tt'` that `resolve_conflicts` returned, that
+has no raw conflicts, whose inventory delta exists and is consistent (bzr), and that renames
+nothing onto a file. -/
+theorem run_all_or_nothing (fl : Flags) (tt tt' : TT) (d : Disk) (h : tt.resolveAndApply fl = .applied tt' d) :
+    tt.resolveConflicts fl = .clean tt' ∧ tt'.findRawConflicts fl = [] ∧ d = tt'.applyDisk ∧ tt'.dangling = [] ∧
+    (fl.git = false → ∃ dl, tt'.generateDelta fl = .ok dl ∧ invConsistent (applyDelta tt'.baseInv dl) = true) := by
+  unfold TT.resolveAndApply at h
+  split at h
+  · rename_i tt1 hr
+    have hc := resolve_clean_or_error fl passCount tt [] tt1 hr
+    unfold TT.apply at h
+    simp only [hc, List.isEmpty_nil, Bool.not_true, Bool.false_eq_true, if_false] at h
+    split at h
+    · cases h
+    · rename_i dl hd
+      split at h
+      · cases h
+      · rename_i hdang
+        split at h
+        · cases h
+        · rename_i hcons
+          cases h
+          refine ⟨hr, hc, rfl, by simpa using hdang, ?_⟩
+          intro hg
+          simp only [hg, Bool.false_eq_true, if_false] at hd
+          refine ⟨dl, hd, ?_⟩
+          simpa [hg] using hcons
+  · cases h
+  · cases h
+
+/-! ### the third outcome: a resolver raises -/
+
+def Resolved.isCrashed : Resolved → Err → Bool
+  | .crashed e, e' => e == e'
+  | _, _ => false
+
+def Resolved.malformedWith : Resolved → List Conflict → Bool
+  | .malformed cs, cs' => cs == cs'
+  | _, _ => false
+
+def Resolved.isClean : Resolved → Bool
+  | .clean _ => true
+  | _ => false
+
+/-- `resolve_conflicts` ends with an exception other than MalformedTransform only when a
+resolver raised it: there is a pass that started from a transform with raw conflicts and whose
+`conflict_pass` failed with exactly that error.  (It never comes from the loop itself.) -/
+theorem resolve_crashed_from_resolver (fl : Flags) (fuel : Nat) (tt : TT) (last : List Conflict) (e : Err)
+    (h : TT.resolve fl fuel tt last = .crashed e) :
+    ∃ tt' : TT, tt'.findRawConflicts fl ≠ [] ∧ tt'.conflictPass fl (tt'.findRawConflicts fl) = Except.error e := by
+  induction fuel generalizing tt last with
+  | zero => simp [TT.resolve] at h
+  | succ n ih =>
+    unfold TT.resolve at h
+    simp only at h
+    split at h
+    · cases h
+    · rename_i hc
+      split at h
+      · exact ih _ _ h
+      · rename_i e' he
+        cases h
+        exact ⟨tt, by simpa using hc, he⟩
+
+/-- a pass over conflicts that have no resolver changes nothing and cannot raise -/
+theorem conflictPass_unresolvable (fl : Flags) (tt : TT) (cs : List Conflict)
+    (h : ∀ c ∈ cs, c.hasResolver = false) : tt.conflictPass fl cs = .ok tt := by
+  unfold TT.conflictPass
+  induction cs with
+  | nil => rfl
+  | cons c rest ih =>
+    have hc : tt.resolveOne fl c = .ok tt := by
+      have := h c (by simp)
+      cases c <;> simp_all [Conflict.hasResolver, TT.resolveOne]
+    simp only [List.foldlM_cons, hc, bind, Except.bind]
+    exact ih (fun c' hc' => h c' (by simp [hc']))
+
+/-- a transform all of whose raw conflicts are of the kinds nobody resolves (executability of an
+unversioned entry / of a non-file, overwrite) is reported as malformed with exactly those
+conflicts, for every positive number of passes: no crash, no change -/
+theorem resolve_unresolvable_malformed (fl : Flags) (fuel : Nat) (tt : TT) (last : List Conflict)
+    (hne : tt.findRawConflicts fl ≠ []) (h : ∀ c ∈ tt.findRawConflicts fl, c.hasResolver = false) :
+    TT.resolve fl (fuel + 1) tt last = .malformed (tt.findRawConflicts fl) := by
+  induction fuel generalizing last with
+  | zero =>
+    unfold TT.resolve
+    have : (tt.findRawConflicts fl).isEmpty = false := by
+      cases hcs : tt.findRawConflicts fl with
+      | nil => exact absurd hcs hne
+      | cons _ _ => rfl
+    simp only [this, Bool.false_eq_true, if_false, conflictPass_unresolvable fl tt _ h]
+    rfl
+  | succ n ih =>
+    unfold TT.resolve
+    have : (tt.findRawConflicts fl).isEmpty = false := by
+      cases hcs : tt.findRawConflicts fl with
+      | nil => exact absurd hcs hne
+      | cons _ _ => rfl
+    simp only [this, Bool.false_eq_true, if_false, conflictPass_unresolvable fl tt _ h]
+    exact ih _
+
+/-- root, a versioned directory `b`, a registered path `y` that does not exist -/
+def crashBase1 : TT :=
+  { base := [⟨none, "", some .dir, "", false, some "r"⟩, ⟨some 0, "b", some .dir, "", false, some "fb"⟩,
+             ⟨some 0, "y", none, "", false, none⟩], next := 3 }
+
+/-- **witness (crash, bzr)**: `adjust_path("b", y, b)` moves the versioned directory `b` below a
+path that does not exist.  Raw conflicts: unversioned parent `y`, missing parent `y`.
+`resolve_unversioned_parent` calls `version_file(y, file_id=None)`: `resolve_conflicts` ends with
+ValueError — neither clean nor MalformedTransform.  With the proposed repair (the resolver leaves
+a parent without an inactive file id alone) the run ends with MalformedTransform. -/
+theorem unversioned_parent_crash_witness :
+    let tt := (crashBase1.steps currentBzr [.adjustPath "b" 2 1]).1
+    tt.findRawConflicts currentBzr = [.unversionedParent 2, .missingParent 2] ∧
+    (tt.resolveConflicts currentBzr).isCrashed .valueError = true ∧
+    (tt.resolveConflicts repairedBzr).malformedWith [.unversionedParent 2] = true := by
+  decide +kernel
+
+/-- root and an unversioned symlink `a` -/
+def crashBase2 : TT :=
+  { base := [⟨none, "", some .dir, "", false, some "r"⟩, ⟨some 0, "a", some .symlink, "t1", false, none⟩], next := 2 }
+
+/-- **witness (crash, bzr)**: `version_file(a, "fid1")`, `new_file("d", a, …, "fid2")`: the symlink
+`a` gets a file id in this transform and a child.  `resolve_non_directory_parent` creates `a.new`
+with `final_file_id(a)` = "fid1" while `a` still holds it in `_new_id`: DuplicateKey.  With the
+proposed repair (release the id first) the run ends clean. -/
+theorem non_dir_parent_duplicate_key_witness :
+    let tt := (crashBase2.steps currentBzr [.versionFile 1 "fid1", .newFile "d" 1 "N9" (some "fid2") none]).1
+    tt.findRawConflicts currentBzr = [.nonDirParent 1] ∧
+    (tt.resolveConflicts currentBzr).isCrashed .duplicateKey = true ∧
+    (tt.resolveConflicts repairedBzr).isClean = true := by
+  decide +kernel
+
+/-- **witness (bzr)**: `unversion_file` of a tree path that is not versioned makes
+`find_raw_conflicts` itself raise NoSuchFile (`_add_tree_children` → `stored_kind`); with the
+proposed repair it is a no-op and the transform is conflict-free. -/
+theorem unversion_unversioned_raises_witness :
+    let tt := (crashBase2.steps currentBzr [.unversionFile 1]).1
+    tt.addTreeChildrenRaises currentBzr = true ∧ tt.addTreeChildrenRaises currentGit = false ∧
+    tt.addTreeChildrenRaises repairedBzr = false ∧ tt.findRawConflicts repairedBzr = [] := by
+  decide +kernel
+
+/-- **a clean transform applies** — under exactly these conditions: no raw conflicts, nothing
+without contents to rename onto a file, and (bzr) a delta that exists and is consistent.  Then
+`apply()` returns and the disk is `applyDisk`. -/
+theorem apply_clean_applies (fl : Flags) (tt : TT) (d0 : Disk) (hc : tt.findRawConflicts fl = [])
+    (hd : tt.dangling = [])
+    (hm : fl.git = true ∨ ∃ dl, tt.generateDelta fl = .ok dl ∧ invConsistent (applyDelta tt.baseInv dl) = true) :
+    tt.apply fl d0 = .applied tt tt.applyDisk := by
+  unfold TT.apply
+  simp only [hc, hd, List.isEmpty_nil, Bool.not_true, Bool.false_eq_true, if_false]
+  rcases hm with hg | ⟨dl, h1, h2⟩
+  · simp [hg]
+  · cases hgit : fl.git with
+    | true => simp
+    | false => simp [h1, h2]
+
+def Outcome.raisedWith : Outcome → Err → Bool
+  | .raised e _, e' => e == e'
+  | _, _ => false
+
+def Outcome.isApplied : Outcome → Bool
+  | .applied _ _ => true
+  | _ => false
+
+/-- root and a versioned file `b` -/
+def crashBase3 : TT :=
+  { base := [⟨none, "", some .dir, "", false, some "r"⟩, ⟨some 0, "b", some .file, "B", false, some "fb"⟩], next := 2 }
+
+/-- **witness (partially applied tree, bzr)**: `version_file(b, "fid1")` on the versioned file `b`
+(no `unversion_file`), plus a new file `d`.  No raw conflicts, so `resolve_conflicts` returns at
+once; the delta adds "fid1" at `b` while "fb" still occupies it, `apply_inventory_delta` refuses
+it — after the files were moved and outside the rollback: the run raises and the disk is *not*
+the disk before.  With the proposed repair (the delta drops the old id) the run applies. -/
+theorem inconsistent_delta_partial_witness :
+    let tt := (crashBase3.steps currentBzr [.versionFile 1 "fid1", .newFile "d" 0 "N6" (some "fid2") (some false)]).1
+    tt.findRawConflicts currentBzr = [] ∧ tt.reversioned = [1] ∧
+    (tt.resolveAndApply currentBzr).raisedWith .inconsistentDelta = true ∧
+    diskSame (tt.diskAfter currentBzr) tt.baseDisk = false ∧
+    (tt.resolveAndApply repairedBzr).isApplied = true := by
+  decide +kernel
+
+/-- root, a versioned file `c`, a registered path `y` that does not exist -/
+def crashBase4 : TT :=
+  { base := [⟨none, "", some .dir, "", false, some "r"⟩, ⟨some 0, "c", some .file, "C", false, some "fc"⟩,
+             ⟨some 0, "y", none, "", false, none⟩], next := 3 }
+
+/-- **witness (a conflict-free transform that does not apply, bzr and git)**:
+`adjust_path("f", c, y)` moves the path `y`, which has no contents, below the file `c`.
+`_parent_type_conflicts` ignores children without contents: no raw conflicts; the rename from limbo
+fails with ENOTDIR (rolled back: the disk is the disk before). -/
+theorem dangling_rename_failed_witness :
+    let tt := (crashBase4.steps currentBzr [.adjustPath "f" 1 2]).1
+    tt.findRawConflicts currentBzr = [] ∧ tt.findRawConflicts currentGit = [] ∧ tt.dangling = [2] ∧
+    (tt.resolveAndApply currentBzr).raisedWith .renameFailed = true ∧
+    (tt.resolveAndApply currentGit).raisedWith .renameFailed = true ∧
+    diskSame (tt.diskAfter currentBzr) tt.baseDisk = true := by
+  decide +kernel
 
 /-- conflict types without a resolver are skipped by `conflict_pass` -/
 theorem resolveOne_no_resolver (fl : Flags) (tt : TT) (c : Conflict) (h : c.hasResolver = false) :
@@ -186,10 +414,119 @@ theorem applied_disk_eq_final (fl : Flags) (tt : TT) (t : Tid) (p : List String)
 example : ({ base := [⟨none, "", some .dir, "", false, some "r"⟩, ⟨some 0, "x", some .file, "X", true, some "fx"⟩], next := 2,
              newName := [(1, "y")], newParent := [(1, some 0)] } : TT).okId 1 = true := by decide
 
-/-! ### the preview tree against the `final_*` functions -/
+/-! ### paths: the directory entries of the applied disk spell the final paths -/
 
-/-- the answers of a preview tree that reads unmodified entries at their tree path -/
-def Flags.previewFixed (fl : Flags) : Bool := fl.dataByTreePath && fl.execByTreePath
+/-- non-vacuity of `wf`: a renamed tree file and a new directory -/
+example : ({ base := [⟨none, "", some .dir, "", false, some "r"⟩, ⟨some 0, "x", some .file, "X", true, some "fx"⟩], next := 3,
+             newName := [(1, "y"), (2, "n")], newParent := [(1, some 2), (2, some 0)], newContents := [(2, (.dir, ""))] } : TT).wf = true := by
+  decide
+
+theorem okId_of_wf (tt : TT) (h : tt.wf = true) (t : Tid) (ht : t < tt.next) (hr : t ≠ TT.root) : tt.okId t = true := by
+  simp only [TT.wf, Bool.and_eq_true, decide_eq_true_eq, List.all_eq_true, TT.ids, List.mem_range, Bool.or_eq_true] at h
+  obtain ⟨_, hall⟩ := h
+  simp only [TT.okId, Bool.and_eq_true, decide_eq_true_eq, Bool.or_eq_true]
+  exact ⟨⟨ht, hr⟩, hall t ht⟩
+
+/-- **the applied directory entry is the final one**: after apply, the inode of every trans-id sits
+under the parent `final_parent` names, with the name `final_name` gives. -/
+theorem applied_dirent_eq_final (tt : TT) (t : Tid) (h : tt.okId t = true) :
+    ∃ i, tt.applyDisk[t]? = some i ∧ tt.finalParent t = some i.parent ∧ tt.finalName t = some i.name := by
+  simp only [TT.okId, Bool.and_eq_true, Bool.or_eq_true, decide_eq_true_eq] at h
+  obtain ⟨⟨hlt, hroot⟩, hknown⟩ := h
+  refine ⟨_, applyDisk_get tt t hlt, ?_⟩
+  have hchmod : ∀ i : Inode, (tt.chmodStep t i).parent = i.parent ∧ (tt.chmodStep t i).name = i.name := by
+    intro i; unfold TT.chmodStep; cases alookup tt.newExec t <;> simp
+  have hrem : (tt.removalStep t (tt.baseInode t)).parent = (tt.baseInode t).parent ∧
+      (tt.removalStep t (tt.baseInode t)).name = (tt.baseInode t).name := by
+    unfold TT.removalStep
+    split
+    · exact ⟨rfl, rfl⟩
+    · split
+      · exact ⟨rfl, rfl⟩
+      · split <;> exact ⟨rfl, rfl⟩
+  rw [(hchmod _).1, (hchmod _).2]
+  by_cases hc : (ahas tt.newContents t || tt.pathChanged t) = true
+  · -- the insertion phase writes the final directory entry
+    have hfp : ∃ pp n, tt.finalParent t = some pp ∧ tt.finalName t = some n := by
+      unfold TT.finalParent TT.finalName
+      rcases hknown with hb | ⟨hn, hp⟩
+      · have hget : tt.base[t]? = some tt.base[t] := by simp [TT.nbase] at hb; simp [hb]
+        cases alookup tt.newParent t <;> cases alookup tt.newName t <;> simp [hget]
+      · have h1 := alookup_isSome_of_ahas hn
+        have h2 := alookup_isSome_of_ahas hp
+        cases hA : alookup tt.newParent t <;> cases hB : alookup tt.newName t <;> simp_all
+    obtain ⟨pp, n, hpp, hn⟩ := hfp
+    unfold TT.insertionStep
+    simp [hc, hpp, hn]
+  · -- untouched: the tree's directory entry, which is what `final_*` fall back to
+    have hc' : ahas tt.newContents t = false ∧ tt.pathChanged t = false := by
+      simpa [Bool.or_eq_false_iff] using hc
+    have hb : t < tt.nbase := by
+      rcases hknown with hb | ⟨hn, _⟩
+      · exact hb
+      · simp [TT.pathChanged, hn] at hc'
+    have hget : tt.base[t]? = some tt.base[t] := by simp [TT.nbase] at hb; simp [hb]
+    have hnn : alookup tt.newName t = none ∧ alookup tt.newParent t = none := by
+      have := hc'.2
+      simp only [TT.pathChanged, Bool.or_eq_false_iff] at this
+      constructor
+      · cases hl : alookup tt.newName t with
+        | none => rfl
+        | some v => have := ahas_of_alookup_some hl; simp_all
+      · cases hl : alookup tt.newParent t with
+        | none => rfl
+        | some v => have := ahas_of_alookup_some hl; simp_all
+    have hnc : alookup tt.newContents t = none := by
+      cases hl : alookup tt.newContents t with
+      | none => rfl
+      | some v => have := ahas_of_alookup_some hl; simp_all
+    unfold TT.insertionStep
+    simp only [hnc, hc, Bool.false_eq_true, if_false]
+    rw [hrem.1, hrem.2]
+    simp [TT.finalParent, TT.finalName, hnn.1, hnn.2, TT.baseInode, hget]
+
+/-- **paths**: for a well-formed transform state, walking the directory entries of the applied
+disk from any trans-id spells exactly the path `FinalPaths` computes — for every fuel. -/
+theorem diskPath_applyDisk_eq_finalPath (tt : TT) (hwf : tt.wf = true) (fuel : Nat) (t : Tid) :
+    diskPath tt.applyDisk fuel t = tt.finalPath fuel t := by
+  induction fuel generalizing t with
+  | zero => rfl
+  | succ n ih =>
+    unfold diskPath TT.finalPath
+    by_cases hr : t = TT.root
+    · simp [hr]
+    · simp only [hr, if_false]
+      by_cases hlt : t < tt.next
+      · obtain ⟨i, hi, hp, hn⟩ := applied_dirent_eq_final tt t (okId_of_wf tt hwf t hlt hr)
+        simp only [hi, hp, hn]
+        cases hpp : i.parent with
+        | none => rfl
+        | some p => simp [ih p]
+      · -- unknown id: no inode, no final parent
+        have hge : tt.next ≤ t := Nat.le_of_not_lt hlt
+        have hlen : tt.applyDisk.length = tt.next := by
+          simp [TT.applyDisk, TT.applyInsertions, TT.applyRemovals, TT.baseDisk, TT.ids]
+        have hnone : tt.applyDisk[t]? = none := List.getElem?_eq_none (by omega)
+        simp only [TT.wf, Bool.and_eq_true, decide_eq_true_eq, List.all_eq_true] at hwf
+        obtain ⟨⟨⟨⟨_, hnb⟩, _⟩, hnp⟩, _⟩ := hwf
+        have hfp : tt.finalParent t = none := by
+          unfold TT.finalParent
+          have h1 : alookup tt.newParent t = none := by
+            unfold alookup
+            have : tt.newParent.find? (fun e => e.1 == t) = none := by
+              rw [List.find?_eq_none]
+              intro x hx
+              have := hnp x hx
+              have hlt' : x.1 < tt.next := by simpa using this
+              have hne : x.1 ≠ t := Nat.ne_of_lt (Nat.lt_of_lt_of_le hlt' hge)
+              simpa using hne
+            simp [this]
+          have hnb' : tt.base.length ≤ tt.next := hnb
+          have h2 : tt.base[t]? = none := List.getElem?_eq_none (by omega)
+          simp [h1, h2]
+        simp [hnone, hfp]
+
+/-! ### the preview tree against the `final_*` functions -/
 
 /-- **preview = final**: with the preview accessors reading an unmodified entry at its
 *tree* path, `kind`, `get_file_text` / `get_symlink_target`, `is_executable` and
@@ -228,6 +565,83 @@ theorem preview_eq_apply_disk (fl : Flags) (tt : TT) (t : Tid) (p : List String)
   simp only at a1 a2 a3 p1 p2 p3 ⊢
   exact ⟨by rw [p1, a1], by rw [p2, a2], by rw [p3, a3]⟩
 
+/-- the paths `FinalPaths` gives to the trans-ids that end with contents -/
+def TT.finalContentPaths (tt : TT) : List (Tid × List String) :=
+  tt.ids.filterMap fun t =>
+    if t = TT.root then none
+    else if (tt.finalKind t).isSome then (tt.pathOf t).map (fun p => (t, p)) else none
+
+/-- **the applied disk has exactly the final paths**: enumerating the inodes that have a directory
+entry, at the path their directory entries spell, gives exactly the trans-ids with final contents
+at their `FinalPaths` path. -/
+theorem appliedPaths_eq_final (tt : TT) (hwf : tt.wf = true) : tt.appliedPaths = tt.finalContentPaths := by
+  unfold TT.appliedPaths TT.finalContentPaths
+  apply filterMap_congr'
+  intro t ht
+  have hlt : t < tt.next := by simpa [TT.ids] using ht
+  by_cases hr : t = TT.root
+  · simp [hr]
+  · simp only [hr, if_false]
+    have hok := okId_of_wf tt hwf t hlt hr
+    have hk := (applied_disk_eq_final currentBzr tt t [] hok).1
+    simp only [TT.appliedEntry, applyDisk_get tt t hlt, TT.finalEntry] at hk
+    rw [applyDisk_get tt t hlt]
+    simp only
+    generalize tt.chmodStep t (tt.insertionStep t (tt.removalStep t (tt.baseInode t))) = i at hk
+    have hkk : (i.attached && i.kind.isSome) = (tt.finalKind t).isSome := by
+      rw [← hk]; cases i.attached <;> simp
+    rw [hkk, diskPath_applyDisk_eq_finalPath tt hwf]
+    rfl
+
+/-- **preview = apply, per path** (kind, contents, executable bit): every path found on the
+applied disk is a path of the preview tree, bound to the same trans-id, and the two trees show the
+same kind, the same text / link target and the same executable bit there. -/
+theorem preview_eq_apply_per_path (fl : Flags) (tt : TT) (hf : fl.previewFixed = true) (hwf : tt.wf = true)
+    (t : Tid) (p : List String) (h : (t, p) ∈ tt.appliedPaths) :
+    (t, p) ∈ tt.livePaths ∧
+    (tt.previewEntry fl t p).kind = (tt.appliedEntry fl t p).kind ∧
+    (tt.previewEntry fl t p).data = some (tt.appliedEntry fl t p).data ∧
+    (tt.previewEntry fl t p).exec = (tt.appliedEntry fl t p).exec := by
+  rw [appliedPaths_eq_final tt hwf] at h
+  simp only [TT.finalContentPaths, List.mem_filterMap] at h
+  obtain ⟨t', ht', hx⟩ := h
+  have hlt : t' < tt.next := by simpa [TT.ids] using ht'
+  split at hx
+  · cases hx
+  · rename_i hr
+    split at hx
+    · rename_i hk
+      cases hp : tt.pathOf t' with
+      | none => simp [hp] at hx
+      | some q =>
+        simp only [hp, Option.map_some, Option.some.injEq, Prod.mk.injEq] at hx
+        obtain ⟨rfl, rfl⟩ := hx
+        refine ⟨?_, preview_eq_apply_disk fl tt t' q hf (okId_of_wf tt hwf t' hlt hr)⟩
+        simp only [TT.livePaths, List.mem_filterMap]
+        exact ⟨t', ht', by simp [hr, TT.live, hk, hp]⟩
+    · cases hx
+
+/-- … and conversely every path of the preview tree whose entry has contents is found on the
+applied disk, under the same trans-id. -/
+theorem preview_paths_on_applied_disk (tt : TT) (hwf : tt.wf = true) (t : Tid) (p : List String)
+    (h : (t, p) ∈ tt.livePaths) (hk : (tt.finalKind t).isSome = true) : (t, p) ∈ tt.appliedPaths := by
+  rw [appliedPaths_eq_final tt hwf]
+  simp only [TT.livePaths, List.mem_filterMap] at h
+  obtain ⟨t', ht', hx⟩ := h
+  simp only [TT.finalContentPaths, List.mem_filterMap]
+  refine ⟨t', ht', ?_⟩
+  split at hx
+  · cases hx
+  · rename_i hr
+    split at hx
+    · cases hp : tt.pathOf t' with
+      | none => simp [hp] at hx
+      | some q =>
+        simp only [hp, Option.map_some, Option.some.injEq, Prod.mk.injEq] at hx
+        obtain ⟨rfl, rfl⟩ := hx
+        simp [hr, hk, hp]
+    · cases hx
+
 /-- hypothesis of the partial theorem: the base tree has this very entry at the path
 the preview shows it at (it was not moved), and contents are only replaced on
 versioned entries -/
@@ -263,9 +677,6 @@ theorem preview_entry_partial (fl : Flags) (tt : TT) (t : Tid) (p : List String)
     | none => simp
     | some k => cases k <;> cases alookup tt.newExec t <;> simp
 
-/-- the code variant of the pinned source for bzr trees -/
-def pinnedBzr : Flags := { git := false, dataByTreePath := false, execByTreePath := false, childrenGet := false, cancelGuarded := false, loopGuarded := false }
-def pinnedGit : Flags := { git := true, dataByTreePath := true, execByTreePath := false, childrenGet := false, cancelGuarded := false, loopGuarded := false }
 
 /-- base tree `x` (an executable file) and a directory `d` with a file `d/g` -/
 def witnessTT : TT :=
@@ -291,16 +702,282 @@ theorem preview_path_lookup_witness :
     (renamedFile.previewEntry pinnedBzr 1 ["y"]).exec = false := by
   decide +kernel
 
-/-- **witness (git apply)**: rename a directory `d` with a versioned file `d/g` to `e`.
-No raw conflicts; the preview tree says `e/g` is versioned; the index written by
-`_generate_index_changes` still has `d/g` and not `e/g`. -/
+/-- **witness (git apply, before fix a33311f)**: rename a directory `d` with a versioned file `d/g`
+to `e`.  No raw conflicts; the preview tree says `e/g` is versioned; the index written by
+`_generate_index_changes` as it was still has `d/g` and not `e/g`.  The repaired
+`_generate_index_changes` (`TT.gitIndex`, what /repo has now) re-keys the entry. -/
 theorem git_index_dir_rename_witness :
     renamedDir.findRawConflicts pinnedGit = [] ∧
     renamedDir.pathOf 3 = some ["e", "g"] ∧
     (renamedDir.previewEntry pinnedGit 3 ["e", "g"]).versioned = true ∧
-    (renamedDir.appliedEntry pinnedGit 3 ["e", "g"]).versioned = false ∧
-    renamedDir.gitIndex = [["x"], ["d", "g"]] := by
+    renamedDir.gitIndexPinned = [["x"], ["d", "g"]] ∧
+    renamedDir.gitIndex = [["x"], ["e", "g"]] ∧
+    (renamedDir.appliedEntry currentGit 3 ["e", "g"]).versioned = true := by
   decide +kernel
+
+/-! ### fuel -/
+
+/-- **fuel (paths)**: a `FinalPaths` walk that has ended keeps its answer with any amount of
+additional fuel; so the fuel `next + 1` of `pathOf` can only ever be *too small* (answer `none`),
+never give a wrong path — and `TT.fuelOk`, evaluated by the driver on every reached state,
+checks that doubling it changes nothing. -/
+theorem finalPath_fuel_mono (tt : TT) (fuel k : Nat) (t : Tid) (p : List String)
+    (h : tt.finalPath fuel t = some p) : tt.finalPath (fuel + k) t = some p :=
+  finalPath_mono tt fuel k t p h
+
+/-- the same for the registered tree paths and for inventory paths -/
+theorem treePath_invPath_fuel_mono (tt : TT) (inv : Inv) (fuel : Nat) :
+    (∀ t p, tt.treePath fuel t = some p → tt.treePath (fuel + 1) t = some p) ∧
+    (∀ f p, invPath inv fuel f = some p → invPath inv (fuel + 1) f = some p) :=
+  ⟨treePath_succ tt fuel, invPath_succ inv fuel⟩
+
+/-- **fuel (loops)**: a `_parent_loops` walk that found the loop, and a `resolve_parent_loop` walk
+that found the changed entry, keep their answer with more fuel -/
+theorem loopWalk_findChanged_fuel_mono (tt : TT) (fuel : Nat) :
+    (∀ t cur seen, tt.loopWalk t fuel cur seen = true → tt.loopWalk t (fuel + 1) cur seen = true) ∧
+    (∀ cur r, tt.findChanged fuel cur = .ok r → tt.findChanged (fuel + 1) cur = .ok r) :=
+  ⟨fun t => loopWalk_succ tt t fuel, findChanged_succ tt fuel⟩
+
+/-- non-vacuity: the walks of the witness states end within their fuel -/
+example : renamedDir.fuelOk = true ∧ renamedDir.pathOf 3 = some ["e", "g"] := by decide +kernel
+
+/-! ### the git index -/
+
+/-- what `_apply_index_changes` adds -/
+theorem gitAdded_mem_iff (tt : TT) (p : List String) :
+    p ∈ tt.gitAdded ↔ ∃ t, t ∈ tt.gitChanged ∧ (tt.finalKind t = some .file ∨ tt.finalKind t = some .symlink) ∧
+      tt.finalVersioned t = true ∧ tt.pathOf t = some p := by
+  unfold TT.gitAdded
+  rw [List.mem_filterMap]
+  constructor
+  · rintro ⟨t, ht, hx⟩
+    refine ⟨t, ht, ?_⟩
+    cases hk : tt.finalKind t with
+    | none => simp [hk] at hx
+    | some k =>
+      cases k <;> simp only [hk] at hx
+      · split at hx
+        · rename_i hv; exact ⟨Or.inl rfl, hv, hx⟩
+        · cases hx
+      · cases hx
+      · split at hx
+        · rename_i hv; exact ⟨Or.inr rfl, hv, hx⟩
+        · cases hx
+  · rintro ⟨t, ht, hk, hv, hp⟩
+    refine ⟨t, ht, ?_⟩
+    rcases hk with hk | hk <;> simp [hk, hv, hp]
+
+/-- the index after apply: what was added, and what was there and was not deleted -/
+theorem gitIndex_mem_iff (tt : TT) (p : List String) :
+    p ∈ tt.gitIndex ↔ p ∈ tt.gitAdded ∨ (p ∈ tt.gitBaseIndex ∧ p ∉ tt.gitDeleted) := by
+  unfold TT.gitIndex
+  simp only [List.mem_append, List.mem_filter, Bool.and_eq_true, Bool.not_eq_eq_eq_not, Bool.not_true,
+    List.contains_eq_mem, decide_eq_false_iff_not]
+  by_cases ha : p ∈ tt.gitAdded <;> simp [ha]
+
+/-- non-vacuity of `gitHyps`: the base tree of the witnesses with a directory renamed -/
+example : renamedDir.gitHyps = true := by decide +kernel
+
+/-- **the git index agrees with `final_is_versioned`**: after `_generate_index_changes` +
+`_apply_index_changes` (as /repo has them now: entries that only become versioned and the
+children of moved directories are re-keyed) the index holds exactly the final paths of the
+trans-ids that end as a versioned file or symlink — for every transform state that satisfies
+`gitHyps` (well-formed state and base tree, distinct tree paths, no two live ids at one final
+path; the driver evaluates `gitHyps` on every conflict-free transform the harness reaches). -/
+theorem gitIndex_eq_final (tt : TT) (h : tt.gitHyps = true) (p : List String) :
+    p ∈ tt.gitIndex ↔ ∃ t, (t, p) ∈ tt.livePaths ∧ (tt.finalKind t = some .file ∨ tt.finalKind t = some .symlink) ∧
+      tt.finalVersioned t = true := by
+  simp only [TT.gitHyps, Bool.and_eq_true, beq_iff_eq] at h
+  obtain ⟨⟨⟨⟨⟨⟨hwf, hbw⟩, hbd⟩, hve⟩, htp⟩, hlp⟩, hroot⟩ := h
+  have hnb : tt.nbase ≤ tt.next := by
+    simp only [TT.wf, Bool.and_eq_true, decide_eq_true_eq] at hwf
+    exact hwf.1.1.1.2
+  -- facts about an id that is in none of the sets `_generate_index_changes` looks at
+  have untouched : ∀ t : Nat, t < tt.nbase → t ∉ tt.gitRemoved → (tt.treeFid t).isSome = true →
+      tt.treeKind t ≠ some .dir → tt.pathOf t = tt.treePath (tt.nbase + 1) t ∧ tt.finalVersioned t = true ∧
+      tt.removedContents.contains t = false := by
+    intro t htb hnr hfid hnd
+    have hids : t ∈ tt.ids := by simp only [TT.ids, List.mem_range]; exact Nat.lt_of_lt_of_le htb hnb
+    have hpred := hnr
+    simp only [TT.gitRemoved, List.mem_filter, hids, true_and, Bool.or_eq_true, not_or, Bool.not_eq_true] at hpred
+    obtain ⟨⟨⟨⟨hri, hrc⟩, hnn⟩, hnp⟩, hre⟩ := hpred
+    have hk : (tt.treeKind t).isSome = true := by
+      simp only [TT.versionedExist, List.all_eq_true, List.mem_range, Bool.or_eq_true, Bool.not_eq_eq_eq_not,
+        Bool.not_true] at hve
+      rcases hve t htb with h1 | h1
+      · simp [hfid] at h1
+      · exact h1
+    have hbm : tt.belowMovedDir (tt.nbase + 1) t = false := by
+      have hre' : t ∉ tt.reindexed := by simpa using hre
+      simp only [TT.reindexed, List.mem_filter, List.mem_range, htb, true_and, Bool.and_eq_true, hfid, hk] at hre'
+      have hnd' : (tt.treeKind t != some .dir) = true := by simpa using hnd
+      simpa [hnd'] using hre'
+    have hpc : tt.pathChanged t = false := by simp [TT.pathChanged, hnn, hnp]
+    refine ⟨pathOf_eq_treePath tt hbw hbd hnb t htb hk hpc hbm, ?_, hrc⟩
+    unfold TT.finalVersioned TT.finalFid
+    have hri' : t ∉ tt.removedId := by simpa using hri
+    cases alookup tt.newId t with
+    | some f => rfl
+    | none => simp [hri', hfid]
+  have root_dir : ∀ t, (tt.finalKind t = some .file ∨ tt.finalKind t = some .symlink) → t ≠ TT.root := by
+    intro t hk hr
+    subst hr
+    rcases hk with hk | hk <;> simp [hroot] at hk
+  constructor
+  · intro hp
+    rcases (gitIndex_mem_iff tt p).mp hp with ha | ⟨hb, hnd⟩
+    · obtain ⟨t, htc, hk, hv, hpath⟩ := (gitAdded_mem_iff tt p).mp ha
+      refine ⟨t, ?_, hk, hv⟩
+      have hlt : t < tt.next := by
+        have := (List.mem_filter.mp htc).1
+        simpa [TT.ids] using this
+      refine (mem_livePaths_iff tt t p).mpr ⟨hlt, root_dir t hk, ?_, hpath⟩
+      rcases hk with hk | hk <;> simp [TT.live, hk]
+    · simp only [TT.gitBaseIndex, List.mem_filterMap, List.mem_range] at hb
+      obtain ⟨t, htb, hx⟩ := hb
+      split at hx
+      · rename_i hcond
+        simp only [Bool.and_eq_true, decide_eq_true_eq] at hcond
+        obtain ⟨hfid, hndir⟩ := hcond
+        have hnr : t ∉ tt.gitRemoved := by
+          intro hmem
+          apply hnd
+          unfold TT.gitDeleted
+          exact List.mem_append_left _ (List.mem_filterMap.mpr ⟨t, hmem, hx⟩)
+        obtain ⟨hpath, hv, hrc⟩ := untouched t htb hnr hfid hndir
+        have hlt : t < tt.next := Nat.lt_of_lt_of_le htb hnb
+        have hids : t ∈ tt.ids := by simp only [TT.ids, List.mem_range]; exact hlt
+        -- its final kind is not none (contents are not removed) and not a directory (else deleted)
+        have hkind : tt.finalKind t = some .file ∨ tt.finalKind t = some .symlink := by
+          cases hk : tt.finalKind t with
+          | none =>
+            exfalso
+            unfold TT.finalKind at hk
+            cases hnc : alookup tt.newContents t with
+            | some kd => simp [hnc] at hk
+            | none =>
+              simp only [hnc, hrc, Bool.false_eq_true, if_false] at hk
+              simp only [TT.versionedExist, List.all_eq_true, List.mem_range, Bool.or_eq_true, Bool.not_eq_eq_eq_not,
+                Bool.not_true] at hve
+              rcases hve t htb with h1 | h1
+              · simp [hfid] at h1
+              · simp [hk] at h1
+          | some k =>
+            cases k with
+            | file => exact Or.inl rfl
+            | symlink => exact Or.inr rfl
+            | dir =>
+              exfalso
+              -- a directory now: then the id is in `changed_ids` (new contents) and its path is deleted
+              have hnc : ahas tt.newContents t = true := by
+                cases hl : alookup tt.newContents t with
+                | some kd => exact ahas_of_alookup_some hl
+                | none =>
+                  unfold TT.finalKind at hk
+                  simp only [hl, hrc, Bool.false_eq_true, if_false] at hk
+                  exact absurd hk hndir
+              apply hnd
+              unfold TT.gitDeleted
+              apply List.mem_append_right
+              refine List.mem_filterMap.mpr ⟨t, ?_, ?_⟩
+              · simp [TT.gitChanged, hids, hnc]
+              · simp [hk, hv, hpath, hx]
+        refine ⟨t, (mem_livePaths_iff tt t p).mpr ⟨hlt, root_dir t hkind, ?_, by rw [hpath, hx]⟩, hkind, hv⟩
+        simp [TT.live, hv]
+      · cases hx
+  · rintro ⟨t, hl, hk, hv⟩
+    obtain ⟨hlt, hr, _, hpath⟩ := (mem_livePaths_iff tt t p).mp hl
+    have hids : t ∈ tt.ids := by simp [TT.ids, hlt]
+    rw [gitIndex_mem_iff]
+    by_cases hc : t ∈ tt.gitChanged
+    · exact Or.inl ((gitAdded_mem_iff tt p).mpr ⟨t, hc, hk, hv, hpath⟩)
+    · right
+      simp only [TT.gitChanged, List.mem_filter, hids, true_and, Bool.or_eq_true, not_or, Bool.not_eq_true] at hc
+      obtain ⟨⟨⟨⟨⟨hnn, hnp⟩, hne⟩, hnc⟩, hni⟩, hre⟩ := hc
+      -- a tree id
+      have hok := okId_of_wf tt hwf t hlt hr
+      have htb : t < tt.nbase := by
+        simp only [TT.okId, Bool.and_eq_true, Bool.or_eq_true, decide_eq_true_eq] at hok
+        rcases hok.2 with h1 | h1
+        · exact h1
+        · simp [hnn] at h1
+      have hncl : alookup tt.newContents t = none := alookup_none_of_ahas_false hnc
+      have hnil : alookup tt.newId t = none := alookup_none_of_ahas_false hni
+      have hrc : tt.removedContents.contains t = false := by
+        cases hx : tt.removedContents.contains t with
+        | false => rfl
+        | true =>
+          exfalso
+          have hx' : t ∈ tt.removedContents := by simpa using hx
+          unfold TT.finalKind at hk
+          simp [hncl, hx'] at hk
+      have hrc' : t ∉ tt.removedContents := by simpa using hrc
+      have hkt : tt.finalKind t = tt.treeKind t := by
+        unfold TT.finalKind
+        simp [hncl, hrc']
+      have hri : tt.removedId.contains t = false ∧ (tt.treeFid t).isSome = true := by
+        unfold TT.finalVersioned TT.finalFid at hv
+        simp only [hnil] at hv
+        cases hx : tt.removedId.contains t with
+        | false =>
+          have hx' : t ∉ tt.removedId := by simpa using hx
+          simpa [hx'] using hv
+        | true =>
+          have hx' : t ∈ tt.removedId := by simpa using hx
+          simp [hx'] at hv
+      have hndir : tt.treeKind t ≠ some .dir := by
+        rw [← hkt]; rcases hk with hk | hk <;> simp [hk]
+      have hri' : t ∉ tt.removedId := by simpa using hri.1
+      have hre' : t ∉ tt.reindexed := by simpa using hre
+      have hnr : t ∉ tt.gitRemoved := by
+        simp [TT.gitRemoved, hids, hri', hrc', hnn, hnp, hre']
+      obtain ⟨hpt, _, _⟩ := untouched t htb hnr hri.2 hndir
+      have htree : tt.treePath (tt.nbase + 1) t = some p := by rw [← hpt, hpath]
+      refine ⟨?_, ?_⟩
+      · simp only [TT.gitBaseIndex, List.mem_filterMap, List.mem_range]
+        exact ⟨t, htb, by simp [hri.2, hndir, htree]⟩
+      · intro hdel
+        unfold TT.gitDeleted at hdel
+        rcases List.mem_append.mp hdel with hd | hd
+        · -- the tree path of a removed id: that id is `t` itself
+          obtain ⟨t', ht', hx⟩ := List.mem_filterMap.mp hd
+          have hr' : t' ≠ TT.root := by
+            intro h0
+            subst h0
+            have : tt.treePath (tt.nbase + 1) TT.root = some [] := by simp [TT.treePath]
+            rw [this] at hx
+            cases hx
+            exact hr (finalPath_nil tt _ t hpath)
+          have htb' := treePath_some_lt tt _ t' p hx hr'
+          simp only [TT.treePathsInj, List.all_eq_true, List.mem_range, Bool.or_eq_true, beq_iff_eq] at htp
+          rcases htp t htb t' htb' with (h1 | h1) | h1
+          · subst h1; exact hnr ht'
+          · simp [htree] at h1
+          · simp [htree, hx] at h1
+        · -- the final path of a versioned directory: two live ids at one path
+          obtain ⟨t', ht', hx⟩ := List.mem_filterMap.mp hd
+          split at hx
+          · rename_i hcond
+            simp only [Bool.and_eq_true, decide_eq_true_eq] at hcond
+            have hlt' : t' < tt.next := by
+              have := (List.mem_filter.mp ht').1
+              simpa [TT.ids] using this
+            have hr' : t' ≠ TT.root := by
+              intro h0
+              subst h0
+              have : tt.pathOf TT.root = some [] := by simp [TT.pathOf, TT.finalPath]
+              rw [this] at hx
+              cases hx
+              exact hr (finalPath_nil tt _ t hpath)
+            have hl' : (t', p) ∈ tt.livePaths :=
+              (mem_livePaths_iff tt t' p).mpr ⟨hlt', hr', by simp [TT.live, hcond.1], hx⟩
+            simp only [TT.livePathsInj, List.all_eq_true, Bool.or_eq_true, beq_iff_eq, bne_iff_ne] at hlp
+            rcases hlp (t, p) hl (t', p) hl' with h1 | h1
+            · simp only at h1
+              subst h1
+              rcases hk with hk | hk <;> simp [hk] at hcond
+            · exact h1 rfl
+          · cases hx
 
 /-! ### the inventory delta -/
 
@@ -314,28 +991,61 @@ theorem inventoryAltered_covers (tt : TT) (t : Tid) (h : t < tt.next)
   refine ⟨h, ?_⟩
   rcases hc with h1 | h1 | h1 <;> simp [h1]
 
-/-- **delta soundness, per entry**: for every altered, finally versioned trans-id the
-delta carries an entry with the final name, the final kind and the file id of
-the *final* parent — the inventory path of the entry is then its final path. -/
-theorem delta_put_sound (tt : TT) (t : Tid) (f : String) (ha : t ∈ tt.inventoryAltered) (hf : tt.finalFid t = some f) :
-    DeltaItem.put f (tt.deltaEntry t f) ∈ tt.generateDelta ∧
-    (tt.deltaEntry t f).name = (tt.finalName t).getD "" ∧
-    (tt.deltaEntry t f).parentFid = ((tt.finalParent t).getD none).bind tt.finalFid ∧
-    (∀ k, tt.finalKind t = some k → (tt.deltaEntry t f).kind = some k) := by
-  refine ⟨?_, rfl, rfl, fun k hk => by simp [TT.deltaEntry, hk]⟩
-  unfold TT.generateDelta
-  apply List.mem_append_right
-  rw [List.mem_filterMap]
-  exact ⟨t, ha, by simp [hf]⟩
+/-- non-vacuity of `bzrHyps`: the renamed file / renamed directory of the witnesses -/
+example : renamedFile.bzrHyps = true ∧ renamedDir.bzrHyps = true := by decide +kernel
 
-/-- `apply_inventory_delta`: the last item about a file id decides its entry -/
-theorem delta_last_put_wins (tt : TT) (pre post : List DeltaItem) (f : String) (e : InvEntry)
-    (hd : tt.generateDelta = pre ++ [.put f e] ++ post)
-    (hpost : ∀ x ∈ post, (match x with | .remove g => g | .put g _ => g) ≠ f) :
-    (tt.appliedInv.find? (fun x => x.1 == f)).map (·.2) = some e := by
+/-- **delta soundness**: for a bzr transform state that satisfies `bzrHyps` (well-formed state,
+distinct file ids in the tree and in the result, versioned entries below versioned parents, no
+overwrite, no file id given to an entry that keeps its old one; the driver evaluates `bzrHyps`
+on every conflict-free transform the harness reaches), the inventory after
+`apply_inventory_delta(_generate_inventory_delta())` has for a file id `f` exactly one kind of
+entry: the final name, the file id of the *final* parent and the final kind (the stored kind for
+an entry without contents) of the trans-id whose final file id is `f` — and no entry for a file id
+no trans-id ends with.  If the delta cannot be generated (NoFinalPath) nothing is applied. -/
+theorem delta_sound (fl : Flags) (tt : TT) (hb : tt.bzrHyps = true) (d : List DeltaItem)
+    (hd : tt.generateDelta fl = .ok d) (f : String) (e : InvEntry) :
+    (f, e) ∈ tt.appliedInv fl ↔ ∃ t, t < tt.next ∧ tt.finalFid t = some f ∧ tt.deltaEntry t f = some e := by
   unfold TT.appliedInv
   rw [hd]
-  exact applyDelta_put_last _ pre post f e hpost
+  exact delta_sound_aux fl tt d hb hd f e
+
+/-- … in particular the applied inventory is a function of the file id -/
+theorem applied_inv_functional (fl : Flags) (tt : TT) (hb : tt.bzrHyps = true) (d : List DeltaItem)
+    (hd : tt.generateDelta fl = .ok d) (f : String) (e e' : InvEntry)
+    (h : (f, e) ∈ tt.appliedInv fl) (h' : (f, e') ∈ tt.appliedInv fl) : e = e' := by
+  obtain ⟨t, ht, hf, he⟩ := (delta_sound fl tt hb d hd f e).mp h
+  obtain ⟨t', ht', hf', he'⟩ := (delta_sound fl tt hb d hd f e').mp h'
+  have := finalFids_unique tt (bzrHyps_unpack tt hb).finalFids t t' f ht ht' hf hf'
+  subst this
+  rw [he] at he'
+  exact Option.some.inj he'
+
+/-- non-vacuity of `rootHyps` -/
+example : renamedFile.rootHyps = true ∧ renamedDir.rootHyps = true := by decide +kernel
+
+/-- **inventory paths are final paths**: under `bzrHyps` and `rootHyps` (the root keeps its empty
+name and is the only parentless id), in the inventory after apply, walking the parent file ids
+from the final file id of a trans-id spells exactly the path `FinalPaths` computes for that
+trans-id — for every fuel.  With `delta_sound`: a path is versioned in the applied tree exactly
+when it is the final path of a trans-id that ends versioned. -/
+theorem applied_inv_path_eq_final (fl : Flags) (tt : TT) (hb : tt.bzrHyps = true) (hr : tt.rootHyps = true)
+    (d : List DeltaItem) (hd : tt.generateDelta fl = .ok d) (fuel : Nat) (t : Tid) (f : String)
+    (ht : t < tt.next) (hf : tt.finalFid t = some f) :
+    invPath (tt.appliedInv fl) fuel f = tt.finalPath fuel t := by
+  unfold TT.appliedInv
+  rw [hd]
+  exact applied_inv_path_aux fl tt d hb hr hd fuel t f ht hf
+
+/-- **witness: the hypothesis "no re-versioning" is needed.**  `version_file(x, "new")` on the
+versioned file `x` together with a rename: no raw conflicts, but the applied inventory keeps the
+old id "fx" (an entry no trans-id ends with) next to the new one.  The repaired delta drops it. -/
+theorem delta_reversion_stale_witness :
+    let tt : TT := { renamedFile with newId := [(1, "new")] }
+    tt.findRawConflicts currentBzr = [] ∧ tt.reversioned = [1] ∧ tt.bzrHyps = false ∧
+    (tt.appliedInv currentBzr).map (·.1) = ["r", "fx", "fd", "fg", "new"] ∧
+    (tt.ids.filterMap tt.finalFid) = ["r", "new", "fd", "fg"] ∧
+    (tt.appliedInv repairedBzr).map (·.1) = ["r", "fd", "fg", "new"] := by
+  decide +kernel
 
 /-! ### resolvers -/
 
